@@ -8,8 +8,7 @@ Import ListNotations.
 Open Scope string_scope.
 Open Scope Z_scope.
 
-(* arithmetic/comparison/bitwise (24 opcodes: all of Venom.v's pure ones except `byte`, for which the generator has no
-   code), assign, calldata*, mload/mstore/mcopy, codecopy, sload/sstore, tload/tstore, sha3, returndata*, bump *)
+(* arithmetic/comparison/bitwise (all 25 pure opcodes of Venom.v, `byte` with the byte index on top), assign, calldata*, mload/mstore/mcopy, codecopy, sload/sstore, tload/tstore, sha3, returndata*, bump *)
 Theorem isel_sound : forall E X ow cw o, covered o = true ->
   forall args outs s s' rest, Forall word args ->
   V.eff_sem E X o args s = V.Ok (outs, s') ->
@@ -122,8 +121,9 @@ Example ex_order :
   run0 "div" [7; 2] = Some [3] /\ run0 "mod" [7; 4] = Some [3] /\ run0 "exp" [2; 10] = Some [1024] /\
   run0 "signextend" [0; 255] = Some [W - 1] /\ run0 "addmod" [5; 6; 4] = Some [3] /\ run0 "mulmod" [5; 6; 4] = Some [2] /\
   run0 "sar" [1; W - 2] = Some [W - 1] /\ run0 "sdiv" [W - 6; 2] = Some [W - 3] /\ run0 "smod" [W - 7; 4] = Some [W - 3] /\
-  run0 "bump" [32; 100] = Some [132; 100] /\ run0 "caller" [] = Some [1] /\ run0 "byte" [0; 1] = None.
+  run0 "bump" [32; 100] = Some [132; 100] /\ run0 "caller" [] = Some [1] /\
+  run0 "byte" [31; 258] = Some [2] /\ run0 "byte" [30; 258] = Some [1] /\ run0 "byte" [258; 31] = Some [0] /\ run0 "smul" [2; 3] = None.
 Proof. vm_compute. repeat split. Qed.
-(* the generator has no code for `byte` although SCCP folds it and Venom.v gives it a semantics *)
-Example ex_byte_missing : isel "byte" [] [] = None.
+(* `smul` is not an EVM opcode: no code (it used to be a dead entry of the generator's one-to-one table) *)
+Example ex_smul_absent : isel "smul" [] [] = None.
 Proof. reflexivity. Qed.
